@@ -672,6 +672,27 @@ func TestC01(t *testing.T) {
 		return cs
 	}, c01Check, true)
 
+	// (1b') the same shapes as volume sources and targets with ConvertWindowsPaths (and a few other option sets)
+	winOpts := []loadOpts{{ConvertWindowsPaths: true}, {ConvertWindowsPaths: true, NoResolvePaths: true}, {ConvertWindowsPaths: true, SkipNormalization: true, SkipConsistencyCheck: true}}
+	RunEnum(c, t, "volume-shapes-windows-paths", len(c01HostileStrings)*4*len(winOpts), func(i int) c01Case {
+		o := winOpts[i%len(winOpts)]
+		i /= len(winOpts)
+		str := c01HostileStrings[i/4]
+		var vol any
+		switch i % 4 {
+		case 0:
+			vol = str + ":/data"
+		case 1:
+			vol = "/data:" + str
+		case 2:
+			vol = map[string]any{"type": "bind", "source": str, "target": "/data"}
+		case 3:
+			vol = map[string]any{"type": "volume", "source": str, "target": "/data"}
+		}
+		doc := map[string]any{"services": map[string]any{"svc": map[string]any{"image": "busybox", "volumes": []any{vol}}}, "volumes": map[string]any{"data": nil}}
+		return c01Case{What: "volume-shape", Path: fmt.Sprintf("%d:%q", i%4, str), Load: loadCase{Files: []memFile{{Name: "compose.yaml", Content: emitYAML(doc, nil)}}, Main: []string{"compose.yaml"}, Opts: o}}
+	}, c01Check, true)
+
 	// (1c) combinations of the attributes that the consistency rules and the normalisation relate to each other:
 	// every subset of up to three of them on one service (each value valid on its own)
 	combo := c01ComboFragments()
@@ -703,23 +724,23 @@ func TestC01(t *testing.T) {
 	var tagged []c01Case
 	for _, tg := range []string{"!reset", "!override", "!!map", "!!str", "!custom", "!!binary", "!!null"} {
 		docs := map[string]string{
-			"root-empty":      tg + " {}\n",
-			"root-null":       tg + "\n",
-			"root-mapping":    tg + "\nservices:\n  a:\n    image: x\n",
-			"root-scalar":     tg + " text\n",
-			"root-sequence":   tg + " [a, b]\n",
-			"services":        "services: " + tg + "\n  a:\n    image: x\n",
-			"services-empty":  "services: " + tg + " {}\n",
-			"service":         "services:\n  a: " + tg + "\n    image: x\n",
-			"service-null":    "services:\n  a: " + tg + "\n",
-			"scalar":          "services:\n  a:\n    image: " + tg + " x\n",
-			"key":             "services:\n  " + tg + " a:\n    image: x\n",
-			"sequence-item":   "services:\n  a:\n    image: x\n    command:\n      - " + tg + " echo\n      - hi\n",
-			"all-items":       "services:\n  a:\n    image: x\n    command:\n      - " + tg + " echo\n",
-			"name":            "name: " + tg + " proj\nservices:\n  a:\n    image: x\n",
-			"include":         "include: " + tg + "\n  - inc.yaml\nservices:\n  a:\n    image: x\n",
-			"anchored":        "x-a: &anc " + tg + "\n  k: v\nservices:\n  a:\n    image: x\n    labels: *anc\n",
-			"merge-key":       "x-a: &anc\n  k: v\nservices:\n  a:\n    image: x\n    labels:\n      <<: " + tg + " *anc\n",
+			"root-empty":     tg + " {}\n",
+			"root-null":      tg + "\n",
+			"root-mapping":   tg + "\nservices:\n  a:\n    image: x\n",
+			"root-scalar":    tg + " text\n",
+			"root-sequence":  tg + " [a, b]\n",
+			"services":       "services: " + tg + "\n  a:\n    image: x\n",
+			"services-empty": "services: " + tg + " {}\n",
+			"service":        "services:\n  a: " + tg + "\n    image: x\n",
+			"service-null":   "services:\n  a: " + tg + "\n",
+			"scalar":         "services:\n  a:\n    image: " + tg + " x\n",
+			"key":            "services:\n  " + tg + " a:\n    image: x\n",
+			"sequence-item":  "services:\n  a:\n    image: x\n    command:\n      - " + tg + " echo\n      - hi\n",
+			"all-items":      "services:\n  a:\n    image: x\n    command:\n      - " + tg + " echo\n",
+			"name":           "name: " + tg + " proj\nservices:\n  a:\n    image: x\n",
+			"include":        "include: " + tg + "\n  - inc.yaml\nservices:\n  a:\n    image: x\n",
+			"anchored":       "x-a: &anc " + tg + "\n  k: v\nservices:\n  a:\n    image: x\n    labels: *anc\n",
+			"merge-key":      "x-a: &anc\n  k: v\nservices:\n  a:\n    image: x\n    labels:\n      <<: " + tg + " *anc\n",
 		}
 		base := "services:\n  a:\n    image: base\n    command: [one, two]\n    labels: {k: base}\n"
 		for _, where := range sortedStrKeys(docs) {
